@@ -665,6 +665,11 @@ def gen_cases(tier, rng):
 
 # ----------------------------------------------------------------------------- judging what carquet did
 
+def hx(v):
+    """hex of a delivered value (the driver prints unreadable byte-array slots as marker objects)"""
+    return v.hex() if isinstance(v, (bytes, bytearray)) else repr(v)
+
+
 def is_prefix(got, want):
     return len(got) <= len(want) and list(want[:len(got)]) == list(got)
 
@@ -996,6 +1001,206 @@ def run_model_tie(rep, cases, results, rng, tier, stats):
 
 # ----------------------------------------------------------------------------- entry points
 
+# ----------------------------------------------------------------------------- files beyond 2 GiB / 4 GiB (sparse)
+
+SPARSE_BASES = [4, (1 << 31) + 64, (1 << 32) + 4]
+
+
+def sparse_file(rng, path):
+    """A reference file of three row groups whose data areas are placed by seeking: row group 0 at offset 4, row group
+    1 just above 2 GiB, row group 2 and the footer just above 4 GiB.  Every 64-bit offset field of the footer
+    (ColumnChunk.file_offset, data_page_offset, dictionary_page_offset, RowGroup.file_offset, and - pointing into the
+    footer area, length 0 - index_page_offset, bloom_filter_offset, offset/column index offsets) then carries values
+    above 2^31 and above 2^32.  The file is sparse: a few KiB are allocated.  Returns the FileSpec."""
+    for _ in range(200):
+        spec = pq.gen_spec(rng, dict_offset="present", optional_meta=True, long_form=False, max_rows=25,
+                           encoding=rng.choice(["RLE_DICTIONARY", "PLAIN_DICTIONARY", None]))
+        if len(spec.row_groups) == 3 and all(any(c.defs for c in rg.columns) for rg in spec.row_groups):
+            break
+    else:
+        raise RuntimeError("sparse_file: no three-row-group spec drawn")
+    # half of the dictionary chunks announce their dictionary page, half do not
+    for rg in spec.row_groups:
+        for c in rg.columns:
+            c.dict_offset = rng.choice(["present", "absent"])
+    data = pq.write_file(spec, rng)
+    n = len(data)
+    flen = int.from_bytes(data[n - 8:n - 4], "little")
+    fs = n - 8 - flen
+    ts, _ = pq.thrift_decode_struct(data, fs, n - 8)
+    rgs = ts.get(4).items
+    starts = [min(cc.get(2) for cc in rg.get(1).items) for rg in rgs] + [fs]
+    shift = [SPARSE_BASES[r] - starts[r] for r in range(3)]
+    tail = SPARSE_BASES[2] + (starts[3] - starts[2])             # where the footer goes
+    for r, rg in enumerate(rgs):
+        if rg.get(5) is not None:
+            rg.set(5, pq.CT_I64, rg.get(5) + shift[r])
+        for cc in rg.get(1).items:
+            cc.set(2, pq.CT_I64, cc.get(2) + shift[r])
+            cc.set(4, pq.CT_I64, tail)
+            cc.set(5, pq.CT_I32, 0)
+            cc.set(6, pq.CT_I64, tail)
+            cc.set(7, pq.CT_I32, 0)
+            md = cc.get(3)
+            md.set(9, pq.CT_I64, md.get(9) + shift[r])
+            if md.get(11) is not None:
+                md.set(11, pq.CT_I64, md.get(11) + shift[r])
+            md.set(10, pq.CT_I64, tail)
+            md.set(14, pq.CT_I64, tail)
+            md.set(15, pq.CT_I32, 0)
+    footer = pq.thrift_encode_struct(ts)
+    with open(path, "wb") as f:
+        f.write(pq.MAGIC)
+        for r in range(3):
+            f.seek(SPARSE_BASES[r])
+            f.write(data[starts[r]:starts[r + 1]])
+        f.seek(tail)
+        f.write(footer + len(footer).to_bytes(4, "little") + pq.MAGIC)
+    spec.features["sparse_offsets"] = [SPARSE_BASES[1], SPARSE_BASES[2], tail]
+    return spec
+
+
+def run_sparse(rep, tier, stats, seed=None):
+    """Sparse files above 4 GiB through the stdio and mmap readers (the buffer mode would need the memory)."""
+    import os
+    t0 = time.time()
+    seed = vlib.SEED if seed is None else seed
+    rng = random.Random(seed * 7919 + 606)          # its own stream: a replay rebuilds exactly the same files
+    nfiles = 4 if tier == "thorough" else 1
+    bad = 0
+    for i in range(nfiles):
+        path = filecase.tmppath(".sparse.parquet")
+        try:
+            spec = sparse_file(rng, path)
+            st = os.stat(path)
+            case = FileCase.__new__(FileCase)
+            case.label, case.spec, case.data, case.expect, case.bad, case.key, case.family = f"sparse/{i}", spec, b"", "values", set(), None, "sparse_4gib"
+            case.truth, case.leaves = spec.truth(), spec.leaves()
+            case.maxdef = [l.max_def for l in case.leaves]
+            scripts = []
+            for mode in ("stdio", "mmap"):
+                sc = filecase.Script()
+                sc.open(mode, True, path)
+                sc.meta().dump(1 << 20, maxdef=case.maxdef).close()
+                scripts.append(sc)
+            outs = filecase.run_scripts(scripts)
+            for mode, o in zip(("stdio", "mmap"), outs):
+                d = safe_parse(o, case.maxdef)
+                probs = judge(case, d)
+                rep.count((case.label, mode, st.st_size), nontrivial=True)
+                if probs:
+                    bad += 1
+                    ro = {"label": case.label, "expect": "values", "mode": mode, "sparse": True, "seed": seed, "tier": tier,
+                          "file_size": st.st_size, "allocated_bytes": st.st_blocks * 512, "features": {k: str(v) for k, v in spec.features.items()},
+                          "note": "the file is rebuilt from the seed by replay (it is sparse, > 4 GiB apparent size)"}
+                    rep.violation(f"[{case.label}] sparse file of {st.st_size} bytes ({st.st_blocks * 512} allocated) mode={mode}: {probs[0][0]}: {probs[0][1]}", ro)
+            stats.setdefault("sparse", []).append({"size": st.st_size, "allocated": st.st_blocks * 512, "offsets": spec.features["sparse_offsets"]})
+        finally:
+            try:
+                os.unlink(path)
+            except OSError:
+                pass
+    stats["sparse_seconds"] = round(time.time() - t0, 1)
+    stats["families"]["sparse_4gib"] = {"files": nfiles, "reads": 2 * nfiles, "problems": bad}
+
+
+# ----------------------------------------------------------------------------- read histories (skip, reads without level buffers)
+
+def run_histories(rep, cases, rng, tier, stats):
+    """The column reader of a nullable / repeated foreign column driven by another history than "read everything with
+    level buffers": skip k entries then read the rest, or read k entries without level buffers then read the rest.
+    What is delivered afterwards must be the truth from entry k on (values from the first non-null at or after k)."""
+    t0 = time.time()
+    budget = 1500 if tier == "thorough" else 300
+    pool = [k for k, c in enumerate(cases) if c.expect == "values" and c.data and len(c.data) < 200000]
+    rng.shuffle(pool)
+    scripts, owners = [], []
+    for k in pool:
+        if len(scripts) >= budget:
+            break
+        c = cases[k]
+        cand = [(r, ci) for r, rg in enumerate(c.truth) for ci, (defs, reps, vals) in enumerate(rg)
+                if c.leaves[ci].max_def > 0 and len(defs) >= 2 and any(d < c.leaves[ci].max_def for d in defs)]
+        if not cand:
+            continue
+        r, ci = rng.choice(cand)
+        defs = c.truth[r][ci][0]
+        nulls = [i for i, d in enumerate(defs) if d < c.leaves[ci].max_def]
+        # stop inside the chunk, after at least one null when possible
+        lo = min(nulls[0] + 1, len(defs) - 1)
+        kk = rng.randrange(lo, len(defs)) if lo < len(defs) else 1
+        kind = rng.choice(["skip", "nolevels"])
+        mode = rng.choice(MODES)
+        sc = filecase.Script()
+        tmp = None
+        if mode == "buffer":
+            sc.load_image(c.data)
+            sc.open("buffer", True)
+        else:
+            tmp = filecase.tmppath()
+            Path(tmp).write_bytes(c.data)
+            sc.open(mode, True, tmp)
+        sc.raw(f"CR_OPEN 0 {r} {ci} maxdef={c.leaves[ci].max_def}")
+        sc.raw(f"CR_SKIP 0 {kk}" if kind == "skip" else f"CR_READ 0 {kk} nodef norep")
+        sc.raw(f"CR_READ 0 {len(defs) - kk + 1}")
+        sc.meta().close()
+        scripts.append(sc)
+        owners.append((k, r, ci, kk, kind, mode, tmp))
+    outs = filecase.run_scripts(scripts) if scripts else []
+    import os
+    nbad = 0
+    for (k, r, ci, kk, kind, mode, tmp), o in zip(owners, outs):
+        if tmp:
+            try:
+                os.unlink(tmp)
+            except OSError:
+                pass
+        c = cases[k]
+        defs, reps, vals = c.truth[r][ci]
+        md = c.leaves[ci].max_def
+        try:
+            h = filecase.parse_history(o, ci, 2)
+        except Exception as e:
+            h = [None, None, {"open": "?", "fault": {"summary": "unparsable: %r" % e}}]
+        rep.count(("history", c.label, r, ci, kk, kind, mode))
+        first, second = (h[0], h[1]) if len(h) >= 3 else (None, None)
+        fault = h[-1].get("fault") if isinstance(h[-1], dict) else None
+        got_first = first if kind == "skip" else (first.ret if isinstance(first, filecase.ReadPart) else None)
+        nn_before = sum(1 for d in defs[:kk] if d == md)
+        want = (defs[kk:], reps[kk:], vals[nn_before:])
+        ok = (not fault and got_first == kk and isinstance(second, filecase.ReadPart)
+              and (second.defs, second.reps, second.values) == want)
+        if not ok:
+            nbad += 1
+            what = (f"[{c.label}] mode={mode} rg {r} col {ci} ({c.leaves[ci].ptype} maxdef {md} maxrep {c.leaves[ci].max_rep}): "
+                    f"{'skip' if kind == 'skip' else 'read without level buffers'} of {kk} entries returned {got_first}, the following read "
+                    + (f"delivered defs {second.defs[:10]} values {[hx(v) for v in second.values[:3]]}; stored from entry {kk}: defs {want[0][:10]} values {[hx(v) for v in want[2][:3]]}"
+                       if isinstance(second, filecase.ReadPart) else f"did not complete ({fault})"))
+            ro = c.replay_obj(mode, 1 << 20)
+            ro["history"] = {"rg": r, "col": ci, "k": kk, "kind": kind}
+            if nbad <= 10:
+                rep.violation(what, ro, key=c.key)
+    stats["families"]["histories"] = {"files": len(scripts), "reads": len(scripts), "problems": nbad}
+    stats["history_seconds"] = round(time.time() - t0, 1)
+
+
+def replay_history(e):
+    """Re-run the history recorded in a replay object."""
+    h = e["history"]
+    data = bytes.fromhex(e["file_hex"])
+    truth = e["truth"][h["rg"]][h["col"]]
+    defs, reps, vals = truth[0], truth[1], [bytes.fromhex(v) for v in truth[2]]
+    md = e["maxdef"][h["col"]]
+    ops = [("skip", h["k"])] if h["kind"] == "skip" else [("read", h["k"], "nodef", "norep")]
+    ops.append(("read", len(defs) - h["k"] + 1))
+    res = filecase.column_history(data, e["mode"], True, h["rg"], h["col"], ops, maxdef=md)
+    second = res[1] if len(res) >= 3 else None
+    nn = sum(1 for d in defs[:h["k"]] if d == md)
+    want = (defs[h["k"]:], reps[h["k"]:], vals[nn:])
+    ok = isinstance(second, filecase.ReadPart) and (second.defs, second.reps, second.values) == want and not res[-1].get("fault")
+    return (0 if ok else 1), ("history as expected" if ok else f"after {h['kind']} {h['k']}: got {second}, stored {want[0][:10]} / {[hx(v) for v in want[2][:3]]}")
+
+
 def spec_page_independent(rep):
     """File/SpecPage.v must not (transitively) import any *Model.v (its name does not end in Spec.v, so
     vlib.spec_independence does not look at it)."""
@@ -1042,6 +1247,8 @@ def run(tier):
     stats["files"] = len(cases)
     stats["file_bytes"] = sum(len(c.data) for c in cases)
     results = run_files(rep, cases, rng, tier, stats)
+    run_histories(rep, cases, rng, tier, stats)
+    run_sparse(rep, tier, stats)
     run_model_tie(rep, cases, results, rng, tier, stats)
     rep.cov["rule"] = ("files of the reference writer: feature grid {flat,nested} x 5 codecs x 3 encodings x {default, random, BIT_PACKED-level} runs x 4 "
                        "metadata styles x dictionary offset present/absent; random specs (all flags random, zero-length runs, page splits inside records); "
@@ -1063,6 +1270,29 @@ def replay(path):
         print(json.dumps(j, indent=1)[:4000])
         return 1
     vlib.build_repo()
+    if e.get("sparse"):
+        class _R:       # minimal stand-in for Report: collects violations
+            def __init__(self):
+                self.v = []
+
+            def count(self, *a, **k):
+                pass
+
+            def violation(self, what, ro, key=None):
+                self.v.append(what)
+        r = _R()
+        print("rebuilding the sparse file(s) of seed", e.get("seed"), "tier", e.get("tier"))
+        run_sparse(r, e.get("tier", "quick"), {"families": {}}, seed=e.get("seed", vlib.SEED))
+        for w in r.v:
+            print(w)
+        if not r.v:
+            print("observed on", vlib.REPO, ": as expected in stdio and mmap mode")
+        return 1 if r.v else 0
+    if e.get("history"):
+        rc, obs = replay_history(e)
+        print("case:", e.get("label"), "history:", e["history"])
+        print("observed on", vlib.REPO, ":", obs)
+        return rc
     rc, obs = replay_obj(e)
     print("case:", e.get("label", e.get("corpus", "?")), "expect:", e.get("expect"))
     print("observed on", vlib.REPO, ":", obs)
